@@ -15,6 +15,7 @@ CLAIM = (
     "(4) linearize_to_subroutines runs linearize -> compress -> fix labels -> split in that order."
     " SKIPS: the loops of the functions in scope have no more `continue`, `break` or in-loop `return` statements than the reference "
     "read on the unchanged tree (baselines/skips.json): a new skip means elements that were handled are no longer handled."
+    " TRUTHY: no Optional[int] label is tested by truthiness (label 0 is a label). EMPTY-ONLY: the size tests under which a pass returns early hold for the empty list only (evaluated for lengths 0..4)."
 )
 NOTE = (
     "Trusted base: the small symbolic executor for straight-line label updates (an unrecognised statement is an ANALYSIS-ERROR). "
